@@ -165,6 +165,13 @@ def run():
                                kernel=["tpcn", "rwm"][i % 2], resample=["mult", "syst"][(i // 2) % 2], seed=ck.subseed("tr", i))
                     tasks.append(("tvf.checks.c11:traced", dict(cfg=cfg), None))
                     i += 1
+    # the same with the likelihood evaluated through a pool argument (pool=1: serial but "a pool is configured"; a thread pool and a
+    # concurrent.futures executor: evaluations stay in this process, so the per-batch counters still see them)
+    for j, f in enumerate(ck.pick([0.9, 0.5, 0.15], [0.98, 0.9, 0.7, 0.5, 0.3, 0.15])):
+        for pl in (1, "threadpool", "tpe"):
+            cfg = dict(target="support", tkw=dict(f=f), N=64, n_total=128, ess_ratio=[2.0, 3.0][j % 2], mode=["scalar", "blobs"][(j + (pl == 1)) % 2],
+                       kernel=["tpcn", "rwm"][j % 2], resample=["mult", "syst"][j % 2], seed=ck.subseed("pool", j, str(pl)), pool=pl)
+            tasks.append(("tvf.checks.c11:traced", dict(cfg=cfg), None))
     # directed batches: the RNG interposer serves prior draws in which exactly the chosen rows have zero likelihood
     for j, pat in enumerate(["row0", "last", "rows01", "one-random", "all-but-one"]):
         for N, mode in ((32, "vec"), (24, "blobs")):
@@ -185,6 +192,8 @@ def run():
             continue
         ck.case(dict(traced=cfg), nontrivial=val["inf_seen"] > 0 if "inf_seen" in val else False)
         ck.event("traced runs")
+        if cfg.get("pool") is not None:
+            ck.event("traced runs with a pool argument (pool=1, thread pool, concurrent.futures executor)")
         if cfg.get("directed"):
             ck.event("directed warm-up batches (chosen rows in the zero-likelihood region)", 2)
         ck.event("warm-up (beta=0) iterations checked against the hull", val["warm"])
